@@ -6,7 +6,7 @@ import tempfile
 from engine import gen_states, pool_map
 from readers import run_cli, write_text
 
-SEQS = {1: "ACG", 2: "C", 3: "GNt", 4: "TSGWA"}      # a one-base node (SNP allele), an ambiguous and a soft-masked base, the two
+SEQS = {1: "AWCSG", 2: "C", 3: "GNtSW", 4: "TSGWA"}      # a one-base node (SNP allele), an ambiguous and a soft-masked base, the two
                                                       # IUPAC codes that are their own complement (S = C/G, W = A/T)
 
 
